@@ -244,3 +244,87 @@ def shrink(case):
                 if fails(c):
                     cur = c; changed = True; break
     return cur
+
+
+# ----------------------------------------------------------------------------- falsifier (independent of the Lean model)
+
+def property_holds(case):
+    """Evaluate C01's statement directly on Fitter.fit's output with plain numpy/scipy:
+    reported (av, sc) inside the range and not beaten by a bounded 1-D minimisation of the profile
+    objective; reported chi2 = ssq + limit penalties at the reported point.  Returns (ok, detail)."""
+    import tempfile, shutil
+    from scipy.optimize import minimize_scalar
+    d = tempfile.mkdtemp(prefix='c01f_')
+    try:
+        fitter, names = build(case, d)
+        lo, hi = case['av']
+        k = -0.4 * np.interp(case['wavs'], case['tab_w'], case['tab_chi'], left=0., right=0.) \
+            / np.interp(0.55, case['tab_w'], case['tab_chi'])
+        for si, src in enumerate(case['sources']):
+            if singular(case, src):
+                continue
+            s = pk.make_source('s%d' % si, src['flags'], src['flux'], src['err'])
+            with common.quiet():
+                info = fitter.fit(s)
+            got = pk.fit_arrays(info)
+            fl = np.array(src['flags']); F = np.array(src['flux'], float); E = np.array(src['err'], float)
+            lf = np.zeros(len(fl)); w = np.zeros(len(fl))
+            r1 = fl == 1
+            lf[r1] = np.log10(F[r1]) - 0.5 * (E[r1] / F[r1]) ** 2 / np.log(10.)
+            w[r1] = 1. / (np.abs(E[r1] / F[r1]) / np.log(10.)) ** 2
+            r4 = fl == 4
+            lf[r4] = F[r4]; w[r4] = 1. / E[r4] ** 2
+            r23 = (fl == 2) | (fl == 3)
+            lf[r23] = np.log10(F[r23])
+            for row, nme in enumerate(got['name']):
+                mf = np.log10(np.array(case['models'][names.index(nme)], float))
+                res = lf - mf
+
+                def ssq(a, sc):
+                    return float(np.sum(w * (res - a * k + 2. * sc) ** 2))
+
+                def prof(a):
+                    sc = -np.sum(w * (res - a * k)) / (2. * np.sum(w))
+                    return ssq(a, sc)
+                av, sc, c2 = got['av'][row], got['sc'][row], got['chi2'][row]
+                if not (lo - 1e-9 <= av <= hi + 1e-9):
+                    return False, 'source %d model %s: reported A_V %r outside range %r' % (si, nme, av, case['av'])
+                if lo < hi:
+                    best = min(minimize_scalar(prof, bounds=(lo, hi), method='bounded',
+                                               options=dict(xatol=1e-10)).fun, prof(lo), prof(hi))
+                else:
+                    best = prof(lo)
+                mine = ssq(av, sc)
+                tol = 1e-6 * (1. + abs(best))
+                if mine > best + tol:
+                    return False, ('source %d model %s: reported (av, sc) = (%r, %r) has weighted sum of squares %r, '
+                                   'but %r is attainable inside the A_V range %r' % (si, nme, av, sc, mine, best, case['av']))
+                pen = 0.
+                m = av * k - 2. * sc
+                for j in range(len(fl)):
+                    if (fl[j] == 2 and m[j] < res[j]) or (fl[j] == 3 and m[j] > res[j]):
+                        pen += 1e30 if E[j] == 1. else -2. * np.log(1. - E[j])
+                if abs(c2 - (mine + pen)) > 1e-6 * (1. + abs(mine + pen)):
+                    near = min(abs(m[j] - res[j]) for j in range(len(fl)) if fl[j] in (2, 3)) if r23.any() else 1.
+                    if near > 1e-7:
+                        return False, ('source %d model %s: reported chi2 %r != sum of squares %r + limit penalties %r at the '
+                                       'reported (av, sc)' % (si, nme, c2, mine, pen))
+        return True, ''
+    finally:
+        shutil.rmtree(d, ignore_errors=True)
+
+
+def search(seed, tier, disagreeing):
+    found = []
+    tried = 0
+    pool = list(disagreeing) + [gen_case(case_rng(seed + 7919, PID, i), None) for i in range(40 if tier == 'quick' else 300)]
+    for c in pool:
+        tried += 1
+        try:
+            ok, det = property_holds(c)
+        except Exception as e:
+            ok, det = False, 'implementation raised on in-domain input: %r' % (e,)
+        if not ok:
+            found.append((c, det))
+            break
+    return found, tried
